@@ -236,6 +236,28 @@ func llmnrScenarios(c *vf.Ctx, B int) []*scenario {
 			closeLServer(x, srv, hs, serr)
 		}})
 	}
+	// Close when the serve loop is NOT running: a server that was built but never started (the usual deferred
+	// Close on an early error path), and one whose ListenAndServe failed (no handlers / address in use)
+	out = append(out, &scenario{name: "llmnr-server-close-without-serve", keys: lKeys, bound: B, body: func(x *exec) {
+		srv, err := llmnr.NewIPv4ServerWithHandlers([]llmnr.Handler{answerHandler(x)})
+		if err != nil {
+			panic("harness: " + err.Error())
+		}
+		t0 := vrt.Now()
+		srv.Close()
+		x.obs("Close of a never-started server returned after %d ms", (vrt.Now()-t0)/1e6)
+		// a server whose ListenAndServe fails at once (nothing to serve with), then Close
+		srv2, err2 := llmnr.NewIPv4ServerWithHandlers(nil)
+		if err2 == nil && srv2 != nil {
+			e := srv2.ListenAndServe()
+			x.obs("ListenAndServe without handlers returned error=%v", e != nil)
+			srv2.Close()
+		}
+		srv.Close() // and Close twice
+		if alive := vrt.Drain(120 * sec); len(alive) > 0 {
+			x.fail("no-goroutine-left-after-close", "threads still alive 120 virtual seconds after Close: %v", alive)
+		}
+	}})
 	// Close at any moment relative to two in-flight requests (and to ListenAndServe itself)
 	out = append(out, &scenario{name: "llmnr-server-close-race", keys: lKeys, bound: B, body: func(x *exec) {
 		srv, hs, serr := startLServer(x, []llmnr.Handler{answerHandler(x)})
@@ -332,6 +354,7 @@ func clientScenario(x *exec, mode string, closeRace bool) {
 		}))
 	}
 	answered := map[string]bool{}
+	idOf := map[string]uint16{} // the transaction id each query went out with (seen by the responder)
 	rt := vrt.GoNamed("responder", func() {
 		type rq struct {
 			m    *llmnr.Message
@@ -371,6 +394,7 @@ func clientScenario(x *exec, mode string, closeRace bool) {
 			}
 			q := rq{m, from}
 			got = append(got, q)
+			idOf[m.Questions[0].Name] = m.ID
 			if mode == "in-order" || mode == "question-in-other-case" {
 				reply(q, m.ID)
 				answered[m.Questions[0].Name] = true
@@ -450,6 +474,9 @@ func clientScenario(x *exec, mode string, closeRace bool) {
 			qname = r.m.Questions[0].Name
 		}
 		x.obs("query %s -> id %04x answer for %s", qn[i], r.m.ID, qname)
+		if id, seen := idOf[qn[i]]; seen && r.m.ID != id {
+			x.fail("query-returns-response-with-own-id", "Query(%s) went out with id %04x and was handed a response with id %04x", qn[i], id, r.m.ID)
+		}
 		if !strings.EqualFold(qname, qn[i]) {
 			x.fail("query-returns-response-with-own-id", "Query(%s) was handed the response for %q (id %04x)", qn[i], qname, r.m.ID)
 		}
